@@ -62,6 +62,9 @@ def ops_family(seed, tier, ws):
         progs.append(('cmp_mix_' + op, 'int a, byte b', '', '(a %s b)' % op, 'ib', POS_TEMPLATE))
     for op in ['==', '!=']:
         progs.append(('eq_bool_' + op, 'int a, int b', 'bool p = a is bool; bool q = b is bool;', '(p %s q)' % op, 'ii', POS_TEMPLATE))
+    for op in ['==', '!=']:
+        progs.append(('eq_boolcast_' + op, 'int a, int b', '', '((a is bool) %s (b is bool))' % op, 'ii', POS_TEMPLATE))
+        progs.append(('eq_boolcast_mixed_' + op, 'int a, byte b', 'string s = "ab"; int[] arr = [1, 2, 3];', '(((a is bool) %s (s is bool)) == ((b is bool) %s (arr is bool)))' % (op, op), 'ib', POS_TEMPLATE))
     for op in ['and', 'or']:
         progs.append(('log_int_' + op, 'int a, int b', '', '(a %s b)' % op, 'ii', POS_TEMPLATE))
         progs.append(('log_cmp_' + op, 'int a, int b', '', '((a > 0) %s (b < 7))' % op, 'ii', POS_TEMPLATE))
@@ -144,6 +147,12 @@ def write_family(seed, tier, ws):
     # bool / byte / strings / byte arrays of every length
     items.append(runner.Item(('wbool',), 'empty @is_you(int a) { write(a > 0); write(\' \'); writeln(a < 0); write(a == 0); bool[] b = [true, false]; writeln(b[0]); writeln(b[1]); }',
                              ['1'], s=60, meta={'family': 'write_bool'}))
+    items.append(runner.Item(('wbool', 2), 'empty noise(int a, int b) { write(a + b); }\nempty @is_you(int a) { write(a); write(a < 0); write(\' \'); write(12345); writeln(a > 99); noise(a, 30000); write(a == 1234); write(false); write(true); writeln(a != a); }',
+                             ['-77'], s=60, meta={'family': 'write_bool'}))
+    for w in ws:
+        if w != 2:
+            items.append(runner.Item(('wbool', 'w', w), 'empty @is_you(int a) { write(a); write(a < 0); write(a > 0); bool t = a == 5; writeln(t); writeln(not t); write("ab" is byte[]); write("xyz"); }',
+                                     ['5'], w=w, s=60, meta={'family': 'write_bool'}))
     items.append(runner.Item(('wbool', 0), 'empty @is_you(int a) { write(a > 0); write(\' \'); writeln(a < 0); writeln(a == 0); }',
                              ['0'], s=60, meta={'family': 'write_bool'}))
     byte_prog = 'empty @is_you(const byte[] v) { for (int i = 0; i < v.length; i += 1) { write(v[i]); } writeln(); for (int j = 0; j < v.length; j += 1) { writeln(v[j]); } }'
@@ -205,6 +214,17 @@ def const_family(seed, tier):
     # the simple escapes and \u{...}
     items.append(runner.Item(('c13', 'escapes'), 'empty @is_you() { string s = "\\a\\b\\f\\n\\r\\t\\0\\\'\\"\\\\"; %s string u = "\\u{e9}\\u{4e16}\\u{1F30E}\\u{7f}\\u{80}\\u{7ff}\\u{800}"; %s write(\'\\\\\'); write(\'\\\'\'); write(\'"\'); write("\'"); }' % (dump('s'), dump('u')),
                              [], s=80, meta={'family': 'const_escapes'}))
+    # long strings with an escaped byte at every column around multiples of 72 of the escaped text
+    for esc_txt, width in (('\\n', 2), ('\\"', 2), ('\\\\', 2), ('\\x01', 4)):
+        stmts = []
+        for k, col in enumerate(list(range(66, 76)) + list(range(140, 147))):
+            body = 'a' * col + esc_txt + 'tail'
+            stmts.append('string q%d = "%s"; write(q%d.length); write(q%d); write(\'|\');' % (k, body, k, k))
+        items.append(runner.Item(('c13', 'long', esc_txt), 'empty @is_you() { %s }' % ' '.join(stmts), [], s=120,
+                                 meta={'family': 'const_long_strings'}))
+    for w in (3, 4):
+        items.append(runner.Item(('c13', 'litcast', w), 'empty @is_you() { write("abc" is byte[]); write(("wxyz" is byte[])[2]); write(("wxyz" is byte[]).length); const byte[] l = "q\\n" is byte[]; write(l.length); write(l); }',
+                                 [], w=w, s=80, meta={'family': 'const_string_casts'}))
     for k in range(4 if tier == 'quick' else 24):
         n = rnd.randrange(1, 24)
         bs = [rnd.randrange(256) for _ in range(n)]
@@ -356,6 +376,50 @@ def twin_family(seed, tier, ws):
     return items
 
 
+FOLD_PROGRAMS = [
+    # (constant form, run-time twin, twin arguments): effects of the non-constant operand must survive folding
+    ('logic_effects', '''int g = 0; int side(int v) { g += 1; write('s'); return v; }
+const bool F = false; const bool T = true;
+empty @is_you(int a) { int[] arr = [1, 2];
+  write((side(a) > 0) and false); write((side(a) > 0) or true); write(false and (side(a) > 0)); write(true or (side(a) > 0)); write(g);
+  write((side(a) > 0) and F); write((side(a) > 0) or T); write((arr[a] > 0) and false); write(g);
+  if ((side(a) == 1) and F) { write('x'); } else { write('y'); } while ((side(a) == 7) or (T and F)) { write('z'); } write(g); }''',
+     '''int g = 0; int side(int v) { g += 1; write('s'); return v; }
+empty @is_you(int a, int fi, int ti) { bool F = fi is bool; bool T = ti is bool; int[] arr = [1, 2];
+  write((side(a) > 0) and F); write((side(a) > 0) or T); write(F and (side(a) > 0)); write(T or (side(a) > 0)); write(g);
+  write((side(a) > 0) and F); write((side(a) > 0) or T); write((arr[a] > 0) and F); write(g);
+  if ((side(a) == 1) and F) { write('x'); } else { write('y'); } while ((side(a) == 7) or (T and F)) { write('z'); } write(g); }''',
+     [['0', '0', '1'], ['1', '0', '1'], ['5', '0', '1']]),
+    ('known_lengths', '''const int[] G = [1, 2, 3]; byte[] H = [7, 8]; string S = "four";
+empty @is_you(int a) { const int[] l = [5, 6, 7, 8]; write((G is bool) is int); write(not (G is bool)); write((G is bool) == true); write((l is bool) is int); write((H is bool) is int);
+  bool[] pack = [G is bool, l is bool, "abc" is bool, [1, 2] is bool]; for (int i = 0; i < 4; i += 1) { write(pack[i] is int); } write((S is bool) is int); write(("abcd" is bool) is int);
+  bool keep = G is bool; write(keep is int); write(keep == (a is bool)); write(G.length + l.length + "abc".length); }''',
+     None, [['1'], ['0'], ['2']]),
+    ('bool_literal_runtime_tail', '''empty @is_you(int a, int b) { bool[] f = [true, false, true, false, true, false, true, false, a > 0, b > 0, true, a == b, false, false, false, false, b == 1, a == 1];
+  for (int i = 0; i < f.length; i += 1) { write(f[i] is int); } bool[] g = [a > 0, true, b > 0, false, false, false, false, false, false, a > 1, b > 1]; for (int j = 0; j < g.length; j += 1) { write(g[j] is int); } }''',
+     None, [['1', '0'], ['0', '1'], ['2', '2'], ['1', '1']]),
+    ('const_switches', '''const bool DEBUG = false; const int LEVEL = 0; const bool ON = true;
+empty !chk(int v) { !truth_is_defeat(DEBUG); write('c'); !truth_is_defeat(v > 5 and DEBUG); write('d'); !truth_is_defeat(LEVEL > 0); write('e'); }
+int pick(int v) { if (DEBUG) { return 0 - 1; } if (ON or v > 3) { write('o'); } while (DEBUG) { v += 1; } return v + LEVEL; }
+empty @is_you(int v) { try { !chk(v); write('n'); } stop { write('h'); } write(pick(v)); try { !truth_is_defeat(false); write('k'); !truth_is_defeat(ON and v == 9); write('m'); } undo { write('u'); } write('>'); }''',
+     None, [['0'], ['7'], ['9']]),
+]
+
+
+def fold_family(ws):
+    items = []
+    for name, a, b, argss in FOLD_PROGRAMS:
+        for args in argss:
+            for w in ws:
+                if b is None:
+                    items.append(runner.Item(('fold', name, tuple(args), w), a, args, w=w, s=120,
+                                             meta={'family': 'fold:' + name, 'classifier': {'form': name}}))
+                else:
+                    items.append(runner.Item(('fold', name, tuple(args), w), a, args[:1], w=w, s=120, sem_src=b, sem_args=args,
+                                             meta={'family': 'fold:' + name, 'twin': (a, b, args), 'classifier': {'form': name}}))
+    return items
+
+
 # ------------------------------------------------------------------------------------------------ C05
 def fault_family(seed, tier):
     rnd = random.Random(seed)
@@ -376,6 +440,9 @@ def fault_family(seed, tier):
         add('div_assign' + op, 'int g = 3; empty @is_you(int x, int y) { int v = x; write(\'a\'); v %s= y; write(v); g %s= y; write(g); }' % (op, op), divs)
         add('div_elem' + op, 'empty @is_you(int x, int y) { int[] a = [x, 5]; byte[] b = [9, 8]; write(\'a\'); a[0] %s= y; write(a[0]); b[1] %s= (y is byte); write(b[1] is int); }' % (op, op), divs)
         add('div_rhs_first' + op, 'int g = 0; int f() { g += 1; write(\'f\'); return 0; }\nempty @is_you(int x, int y) { write(\'a\'); int r = f() + (x %s y); write(g); write(r); }' % op, divs)
+    # divisors that are compile-time constants (literal, const variable) under a run-time dividend
+    add('div_const_zero', 'const int Z = 0; const int ONE = 1;\nempty @is_you(int x, int y) { int[] a = [x, 5]; int v = x; write(\'a\'); if (y == 1) { write(x / Z); } if (y == 2) { write(x %% Z); } if (y == 3) { a[0] %%= 0; } if (y == 4) { v /= 0; } if (y == 5) { a[1] /= Z; } write(x / ONE); write(\'b\'); write(a[0]); write(v); }'.replace('%%', '%'),
+        [[7, k] for k in range(0, 6)])
     idx = lambda n: [[-1], [0], [n - 1], [n], [n + 1], [m], [-m - 1], [256], [-256]]
     for el, lit, n in [('int', '[3, 4, 5]', 3), ('byte', "['a', 'b', 'c', 'd']", 4), ('bool', '[true, false, true, true, false, true, false, false, true]', 9),
                        ('string', '["p", "qq"]', 2)]:
